@@ -127,6 +127,9 @@ OnLadder(ev) ==
        \* is sticky, so the batch is refused again and the refusal is still recognisable (a reader that resumes has lost
        \* the dictionary it was reading when it refused)
        \cup If(ev.bid = 3 /\ ~(ev.oc = "error" /\ ev.flag = 1), V("C14", "RefusedReaderDoesNotKeepRefusing", ev))
+       \* ev.bid = 1: the consumer refused earlier, but this batch reaches neither the refusing reader nor a reader with a
+       \* hole (its sub-streams are new or intact): whatever it refuses now must again be recognisable
+       \cup If(ev.bid = 1 /\ ev.oc = "error" /\ ev.flag = 0, V("C14", "LaterRefusalNotRecognisableAsMemoryLimit", ev))
        \cup If(ev.b > ev.a, V("C14", "ReportedInUseExceedsLimit", ev))
        \cup If(ev.bid = 0 /\ ev.oc # "ok" /\ \E j \in DOMAIN ladder : ladder[j].bid = 0 /\ ladder[j].oc = "ok" /\ ladder[j].a <= ev.a,
                V("C14", "RaisingLimitRefusesDecodableBatch", ev))
